@@ -124,13 +124,13 @@ void Exec::do_printid() {
   }
   std::set<std::string> golden;
   for (const Sol& s : g_sols) golden.insert(s.name);
-  if (seen != golden) {
+  {
+    // a documented solution that is no longer listed is a verdict; a solution the frozen table does not know yet
+    // (an upstream addition) is not: the table has nothing to say about it
     std::string d;
     for (auto& s : golden)
       if (!seen.count(s)) d += " -" + s;
-    for (auto& s : seen)
-      if (!golden.count(s)) d += " +" + s;
-    viol("C14", "C14.printid.set", "printid", "listed catalogue differs from the documented one:" + d);
+    if (!d.empty()) viol("C14", "C14.printid.set", "printid", "documented catalogue entries are not listed:" + d);
   }
 }
 
